@@ -13,3 +13,5 @@ import BezierVerif.Props.Roots
 import BezierVerif.Props.C02
 import BezierVerif.Props.C03
 import BezierVerif.Props.C08
+import BezierVerif.Props.C07
+import BezierVerif.Props.C07A
